@@ -352,6 +352,11 @@ def references(ctx) -> None:
     shared.stmt_under(ctx, 'C20.reference', new, f'module = {v}.__module__', [(f'isinstance({v}, str)', False)], 'a class is referenced by its own module', 'Reference:module', inlined=False)
     shared.stmt_under(ctx, 'C20.reference', new, f'qualname = {v}.__qualname__', [(f'isinstance({v}, str)', False)], 'and by its qualified name (inner classes keep their outer scope)', 'Reference:qualname', inlined=False)
     shared.stmt_under(ctx, 'C20.reference', new, 'return Qualifier(module, qualname)', [], 'the qualifier is (module, qualname) in field order', 'Reference:qualifier', inlined=False)
+    # a textual reference is an alias exactly when it carries no delimiter: 'name:' or ':Name' are malformed qualified names
+    # (their lookup fails with the missing-provider error), never an alias that happens to exist
+    al = [r for r in core.walk_local(new.node) if isinstance(r, ast.Return) and isinstance(r.value, ast.Call) and core.call_tail(r.value) == 'Alias']
+    okal = len(al) == 1 and [core.src(a) for a in al[0].value.args] == [v] and sorted(cfg.cguards(al[0], new.node)) == sorted(cfg.cg((f'isinstance({v}, str)', True), (f'Qualifier.DELIMITER in {v}', False)))
+    ctx.check(okal, 'C20.reference', new, 'a string without the delimiter - and only that - is an alias, taken as it is', al[0] if al else new.node, key='Reference:alias')
     mh = prog.func(f'{PROVIDER}:Meta.__hash__')
     ctx.check('cls.__module__' in core.src(mh.node) and 'cls.__qualname__' in core.src(mh.node), 'C20.reference', mh, 'the provider class identity is made of the same two attributes', mh.node, key='Meta.__hash__')
     ia = prog.func(f'{PROVIDER}:isabstract')
